@@ -1348,6 +1348,14 @@ func fqGenValue(r *rand.Rand, idx int, base int64) *fqV {
 			if v.fv < a || v.fv > b {
 				v.fv = a
 			}
+			if r.Intn(8) == 0 {
+				// "any finite double": a range whose width overflows float64 — the generator's draw
+				// minimum + Float64()*(maximum-minimum) is +Inf there and only the clamp to [minimum, maximum]
+				// keeps the value in range (seeded change c20_seed8 skipped the clamp for ranges without a delta)
+				w := []float64{1e308, math.MaxFloat64}[r.Intn(2)]
+				v.fmin, v.fmax = -w, w
+				v.fv = fqDbls[r.Intn(len(fqDbls))]
+			}
 			switch r.Intn(5) {
 			case 0:
 				v.fdmin, v.fdmax = 0.1, 0.5
